@@ -739,6 +739,7 @@ func c13ModelTempoLegacy(r *h.Result, rng *h.Rng, n int) error {
 	r.Stream("model-tempo-legacy: TempoService.Query (trace by id, start/end given or 0) / Tags / Values → statement text vs renderSel of Tempo.queryRequest / tagsRequest / valuesRequest (byte-equal) + confined of the model's trace-by-id plan when both ends are given")
 	var ops, impl []string
 	var cases []any
+	var tight c13Tight
 	ctx := context.Background()
 	for i := 0; i < n; i++ {
 		cluster := rng.Chance(40)
@@ -765,6 +766,13 @@ func c13ModelTempoLegacy(r *h.Result, rng *h.Rng, n int) error {
 			cases = append(cases, map[string]any{"stream": "model-tempo-legacy", "kind": "trace-by-id", "start_s": start, "end_s": end, "trace_id": tid, "cluster": cluster, "sql": stmt})
 			r.Case(fmt.Sprintf("model-tempo-legacy:query:%d:%d:%s:%v", start, end, tid, cluster), start != 0 && end != 0)
 			r.Count(fmt.Sprintf("model-tempo-legacy:trace-by-id:start=%v,end=%v", start != 0, end != 0))
+			if start != 0 && end != 0 {
+				// the real select object, judged for the window the request names
+				if ts, ok := rservice.NewTempoService(rmodel.ServiceData{}).(*rservice.TempoService); ok {
+					sel := ts.GetQueryRequest(ctx, start*1e9, end*1e9, []byte(tid), fakeDB(cluster))
+					tight.add("tempo-trace-by-id", start*1e9, end*1e9, 0, false, 0, sel, "trace by id", cases[len(cases)-1])
+				}
+			}
 		case 2:
 			stmt, err := c13tCapture(cluster, func(svc rmodel.ITempoService) error {
 				ch, err := svc.Tags(ctx)
@@ -812,7 +820,10 @@ func c13ModelTempoLegacy(r *h.Result, rng *h.Rng, n int) error {
 			r.Count("model-tempo-legacy:values")
 		}
 	}
-	return r.Compare("model-tempo-legacy", ops, impl, cases)
+	if err := r.Compare("model-tempo-legacy", ops, impl, cases); err != nil {
+		return err
+	}
+	return tight.judge(r)
 }
 
 // ---- http-tempo: the same tie through the router and the controller (parameter handling included)
